@@ -15,7 +15,14 @@ import (
 // Rand is splitmix64; every random choice of a run derives from one state seeded by VERIF_SEED.
 type Rand struct{ s uint64 }
 
-func NewRand(seed uint64) *Rand { return &Rand{s: seed*0x9E3779B97F4A7C15 + 0x1234567} }
+// NewRand mixes the seed first: the state advances by a constant per draw, so without mixing the
+// stream of seed k+1 would be the stream of seed k shifted by one draw.
+func NewRand(seed uint64) *Rand {
+	z := seed*0x9E3779B97F4A7C15 + 0x1234567
+	z = (z ^ (z >> 30)) * 0xBF58476D1CE4E5B9
+	z = (z ^ (z >> 27)) * 0x94D049BB133111EB
+	return &Rand{s: z ^ (z >> 31)}
+}
 
 func (r *Rand) U64() uint64 {
 	r.s += 0x9E3779B97F4A7C15
